@@ -107,6 +107,36 @@ def gen_points(rng, m, ant, n):
     return out
 
 
+def big_grid_clause(m, ant, rng):
+    """a field map of a few thousand points in one request (more than 65536 / (6 pulses) points, and not a round
+    number): every row of the map is the field a request for that point alone gives — chunked or blocked evaluation,
+    tables keyed by position and index arithmetic show only at such sizes"""
+    N = len(m.pulses)
+    npts = int(max(1500, 1.35 * 65536 / (6 * max(N, 1)))) + 7
+    nx = 43
+    ny = npts // nx + 1
+    segmax = max(float(sg.seg_len) for g in m.geo for sg in g.segments)
+    allp = np.array([list(sg.p1) for g in m.geo for sg in g.segments] + [list(sg.p2) for g in m.geo for sg in g.segments], dtype=float)
+    c = allp.mean(axis=0)
+    dd = segmax / 2
+    z0 = float(allp[:, 2].max()) + 3 * segmax
+    start = [float(c[0] - nx / 2 * dd), float(c[1] - ny / 2 * dd), z0]
+    m.compute_near_field(start, [dd, dd, 0.0], [nx, ny, 1])
+    E, H = np.array(m.e_field), np.array(m.h_field)
+    coords = np.array(m.near_field_coord).T
+    if len(E) != nx * ny:
+        return 'a field map of %d x %d points has %d rows' % (nx, ny, len(E))
+    K = nx * ny
+    for idx in sorted(set([0, 1, K // 3, K // 2, (2 * K) // 3, K - nx, K - 3, K - 2, K - 1] + [rng.randrange(K) for _ in range(4)])):
+        pt = [float(x) for x in coords[idx]]
+        e, h = impl_near(m, pt)
+        sc = max(float(np.max(np.abs(e))), 1e-300)
+        if np.max(np.abs(E[idx].ravel() - e)) > 1e-9 * sc or np.max(np.abs(H[idx].ravel() - h)) > 1e-9 * max(float(np.max(np.abs(h))), 1e-300):
+            return ('row %d of a field map of %d points (point %s) has |E| = %.6g; asked for alone the point has |E| = %.6g'
+                    % (idx + 1, K, [round(x, 4) for x in pt], float(np.max(np.abs(E[idx]))), float(np.max(np.abs(e)))))
+    return None
+
+
 def impl_near(m, pt, pwr=None):
     kw = {} if pwr is None else dict(pwr=pwr)
     m.compute_near_field(pt, [1.0, 1.0, 1.0], [1, 1, 1], **kw)
@@ -189,7 +219,15 @@ def model_fields(d, m, pts, ground, pwr):
     return out
 
 
+def replay_big(rp):
+    bad = big_grid_clause(build(rp['ant'], rp['src_seed']), rp['ant'], random.Random(rp['src_seed']))
+    print('replay ->', bad or 'property holds')
+    return 1 if bad else 0
+
+
 def replay(rp):
+    if rp.get('kind') == 'big-grid':
+        return replay_big(rp)
     k = rp.get('kind')
     if k == 'near':
         bad = property_on_impl(rp['ant'], rp['src_seed'], rp['pts'], rp.get('pwr'))
@@ -240,6 +278,12 @@ def run(ck):
             if de > 1e-9 or dh > 1e-9:
                 dis.append(dict(ant=ant, src_seed=ss, pts=[pt], pwr=pwr, why='model vs implementation: E off by %.3g, H off by %.3g' % (de, dh)))
         bad = property_on_impl(ant, ss, pts, pwr)
+        if not bad and (i == 1 or i % 60 == 31):
+            ck.count('big_grid_cases')
+            bad = big_grid_clause(build(ant, ss), ant, random.Random(ss))
+            if bad:
+                viol.append(dict(kind='big-grid', ant=ant, src_seed=ss, observed=bad))
+                bad = None
         if bad:
             viol.append(dict(kind='near', ant=ant, src_seed=ss, pts=pts, pwr=pwr, observed=bad))
     for i in range(8 if ck.tier == 'quick' else 100):
